@@ -451,14 +451,17 @@ def nontrivial(case, impl, spec):
 SITE_RE = re.compile(r"is_compressed\(\)|Style::Compressed|Style::Expanded|\.add_one\(|get_indent\(|\.sep\(")
 
 # (file, enclosing fn, normalised source line): committed inventory.  W = modelled in Writer/*.lean,
-# V = value/selector text (atoms; compared by the oracle's tokenizer), E = evaluator (transform.rs), D = definition/doc
+# V = value/selector text (atoms; compared by the oracle's tokenizer), E = evaluator (transform.rs Item::Comment; sass/string.rs
+# SassString::evaluate = `C08.interpText false`, theorem interp_style_independent), D = definition/doc
 SITES = None  # filled from SITES_TEXT below
 SITES_TEXT = r'''
+W	css/atrule.rs|write|if buf.format().is_compressed() {
 W	css/atrule.rs|write|buf.add_one(" { ", "{");
 W	css/atrule.rs|write|buf.add_one(" }\n", "}");
 W	css/atrule.rs|write|buf.add_one(";\n", ";");
 V	css/call_args.rs|fmt|let sep = if format.is_compressed() { "," } else { ", " };
 W	css/comment.rs|write|buf.add_one("\n", "");
+W	css/comment.rs|write|if buf.format().is_compressed() {
 W	css/comment.rs|write|let start = buf.format().get_indent(indent - existing);
 W	css/comment.rs|write|let start = buf.format().get_indent(existing - indent - 1);
 W	css/comment.rs|write|buf.add_one("*/\n", "*/");
@@ -488,6 +491,8 @@ W	output/format.rs|get_indent|pub fn get_indent(&self, len: usize) -> Cow<'stati
 W	output/format.rs|get_indent|if self.is_compressed() {
 W	output/format.rs|default|style: Style::Expanded,
 E	output/transform.rs|handle_item|let compressed = scope.get_format().is_compressed();
+E	sass/string.rs|evaluate|if format.is_compressed() {
+E	sass/string.rs|evaluate|format.style = Style::Expanded;
 V	sass/value.rs|inspect|let s = s.unwrap_or(ListSeparator::Space).sep(false);
 V	value/number.rs|fmt|let skip_zero = self.format.is_compressed();
 V	value/colors/rgba.rs|fmt|if self.format.is_compressed() {
